@@ -166,6 +166,7 @@ def check_conc(prop, tier):
         for i, sc in enumerate(scs):
             hs2.append(scen.harness_level_scenario(sc, {"mode": "dfs", "pb": 2 if tier == "quick" else 3, "max": 40 if tier == "quick" else 400}))
             hs2.append(scen.harness_level_scenario(sc, {"mode": "pct", "seed": seed() * 1000 + i, "runs": nrand, "d": 3}))
+            hs2.append(scen.harness_level_scenario(sc, {"mode": "starve"}))
         h2 = run_harness("level", hs2, work, "tv", timeout=3000)
         s2 = tv(h2["trace"], "MCTraceLevel", "TraceLevel", work, timeout=3000)
         res.add(traces_validated_against_impl=s2["execs"], events_validated=s2["lines"], tv_drifts=len(s2["drifts"]),
@@ -226,6 +227,11 @@ def uuid_part(res, work, tier, rng):
     for i, st in enumerate(starts):
         hs.append({"ns": ["dns", "nil"][i % 2], "start": str(st), "threads": [3, 3], "sched": {"mode": "pct", "seed": seed() + i, "runs": 3 if tier == "quick" else 30}})
     hs.append({"ns": "dns", "threads": [1500 if tier == "quick" else 30000], "sched": {"mode": "random", "seed": 1, "runs": 1}})
+    # adversarial: one victim advances a single operation at a time while the others complete whole calls in
+    # between (defeats bounded retry loops); every thread takes the victim role once
+    hs.append({"ns": "nil", "threads": [2, 40], "sched": {"mode": "starve"}})
+    hs.append({"ns": "dns", "threads": [3, 30, 30], "sched": {"mode": "starve"}})
+    hs.append({"ns": "max", "start": str(10 ** 4 - 20), "threads": [2, 70], "sched": {"mode": "starve"}})
     h = run_harness("uuid", hs, work, "uuid")
     s = tv(h["trace"], "TraceUuid", "TraceUuid", work)
     res.add(traces_validated_against_impl=s["execs"], events_validated=s["lines"], uuid_calls=s["calls"], uuid_drifts=len(s["drifts"]))
@@ -307,6 +313,18 @@ def check_seq(prop, tier):
 
         if prop == "C02":
             mres_part(res, work, tier)
+            # the lifetime bound (an order never trades more than it brought; a maker was resting) also under
+            # concurrency: schedules of the real code on programs with matches, judged by the event-driven
+            # conservation ghost of Level.tla
+            cs = [c for c in scen.conc_scenarios("quick", rng) if any(o["op"] == "match" for p in c["progs"] for o in p)]
+            hc = []
+            for i, c in enumerate(cs):
+                hc.append(scen.harness_level_scenario(c, {"mode": "dfs", "pb": 2, "max": 30 if tier == "quick" else 300}))
+                hc.append(scen.harness_level_scenario(c, {"mode": "starve"}))
+            h0 = run_harness("level", hc, work, "c02conc", timeout=3000)
+            s0 = tv(h0["trace"], "MCTraceLevel", "TraceLevel", work, timeout=3000)
+            res.add(concurrent_executions=s0["execs"], traces_validated_against_impl=s0["execs"])
+            classify_tv(res, s0, {"C03"}, set(), lambda i: hc[i], "concurrent execution (over-fill / maker not resting)", trace=h0["trace"])
         if prop == "C06":
             # termination as a temporal property of the micro-step model under weak fairness
             rl = tlc("MCLive", os.path.join(SPEC, "mc", "MCLive.cfg"), work, workers=4, timeout=1500)
